@@ -56,6 +56,13 @@ func main() {
 		id, _ := strconv.Atoi(os.Args[3])
 		call, _ := strconv.Atoi(os.Args[4])
 		os.Exit(props.RunAlone(seed, id, call))
+	case "deepchain":
+		// deepchain <i>: one chained-nesting-growth case of C04 in a process of its own (default stack limit)
+		if len(os.Args) != 3 {
+			os.Exit(2)
+		}
+		i, _ := strconv.Atoi(os.Args[2])
+		os.Exit(props.RunDeepChain(i))
 	case "stampede":
 		// stampede <seed> <pool> <idx> <mode>: cold-start round of C10 in a process of its own
 		if len(os.Args) != 6 {
